@@ -66,12 +66,13 @@ class LoopInv:
     havoc_extra / ghost makers can be given via `extra` (callables run when havocking).
     """
 
-    def __init__(self, carried, inv, extra_havoc=None, name="loop"):
+    def __init__(self, carried, inv, extra_havoc=None, name="loop", pass_k=False):
         self.carried = carried
         self.inv = inv
         self.extra_havoc = extra_havoc
         self.name = name
         self.contract = None
+        self.pass_k = pass_k  # makers receive the iteration count (k in the body, n after the loop)
 
     def env(self, I):
         return {k: I.frame.locals.get(k) for k in self.carried}
@@ -88,7 +89,7 @@ class LoopInv:
         tag = "body" if verify_body else "exit"
         k = P.fresh_int(f"k_{self.name}")
         for name, maker in self.carried.items():
-            I.frame.locals[name] = maker(I, f"{name}_{tag}")
+            I.frame.locals[name] = maker(I, f"{name}_{tag}", k if verify_body else n) if self.pass_k else maker(I, f"{name}_{tag}")
         if self.extra_havoc:
             self.extra_havoc(I, tag)
         if verify_body:
